@@ -3,18 +3,21 @@ import json, os, random, collections, re
 import vlib, adef, l2
 from checks import gen_common, addr_common as ac
 
-RULE = ("object trees generated NEAR THE BOUNDS of each of the seven address types: one probe path (0..3 nested blocks with "
+RULE = ("corpus/C13 first (the witnesses of the repaired defects D3, D3c, D4, D4b, D4c with the outcome recorded for each, and of D3b); "
+        "then object trees generated NEAR THE BOUNDS of each of the seven address types: one probe path (0..3 nested blocks with "
         "offsets, optional block repeats, a leaf with optional repeat and signed stride) whose extreme address lands at "
         "type.min/max + {-2..2}, plus fillers, register/command refs with/without address and repeat override, block refs, "
         "missing address types; rendered as DSL/JSON/YAML/TOML and run through the REAL transform_*; the MIR of the real front "
-        "end is parsed and the Coq model (addr_check) and the exact Z SPEC (instances/reach/fits) evaluated on it by vm_compute. "
-        "L1 compares (i) implementation vs model: status, error kind, the stated extreme, type and bound; (ii) implementation vs "
-        "spec: unfit/missing => rejected; accepted => every instance fits. L2 compiles accepted definitions without block refs "
-        "(debug: overflow checks on; release: wrapping) and calls every accessor at every extreme index tuple against a recording "
-        "mock; recorded bus addresses are compared with the model's gen_addr (debug/release) and with the spec's addr_sem. "
+        "end is parsed and the Coq model (addr_check: the repaired min/max walk in i128) and the exact Z SPEC (instances/reach/fits) "
+        "evaluated on it by vm_compute. L1 compares (i) implementation vs spec: unfit/missing => rejected, accepted => every instance "
+        "fits (an accepted unfit definition is a violation whatever construct it goes through), no generator panic; (ii) "
+        "implementation vs model: status, error kind, the stated extreme, type and bound. L2 compiles accepted definitions without "
+        "block refs (debug: overflow checks on; release: wrapping) and calls every accessor at every extreme index tuple against a "
+        "recording mock; recorded bus addresses are compared with the model's gen_addr (debug/release) and with the spec's addr_sem; "
+        "a difference from addr_sem is the known finding D3b only where the model puts the path in the class of D3b. "
         "distinct = distinct abstract definitions")
 
-TAG_IDS = ["D3", "D4", "D4b", "D4c"]
+TAG_IDS = ["D3", "D4", "D4b", "D4c"]   # tags of the spec: through which construct an instance is reached (repaired classes)
 
 
 def rng_range(T):
@@ -193,6 +196,29 @@ def judge(e, open_ids):
     if e["coq"] is None or e["coq"].startswith("<<COQ-ERROR"):
         return "violation", "no model result: " + str(e["coq"])[:300]
     model, spec, it = e["coq"].split(" ## ")
+    # ---- implementation vs the exact spec first: what the property itself forbids
+    if spec.startswith("fail:"):
+        return "violation", f"spec evaluation failed: {spec}"
+    if impl == "ok" and spec != "fits":
+        # accepted although something does not fit / a type is missing.  D3, D4, D4b, D4c are repaired, so this is a
+        # violation whatever construct the offending instance is reached through; the tags computed by the spec name the
+        # defect that is back
+        ids = set()
+        for v in spec.split(";"):
+            if v.startswith("missing:"):
+                return "violation", f"accepted although an address type is missing: {v}"
+            for t in v.split("|")[3].split("+"):
+                if t:
+                    ids.add(t)
+        back = f" (defect {'/'.join(sorted(ids))} is back)" if ids else " (no repeated block, block ref or ref fallback involved)"
+        return "violation", f"accepted although a reachable address does not fit its address type: {spec}{back}"
+    if impl == "panic":
+        # the min/max walk, find_best_internal_address and the overlap check compute in i128/u128 since the repair of D3c
+        if spec == "fits":
+            return "violation", f"generator panics ({e['message']}) on a definition whose addresses all fit (defect D3c is back?)"
+        return "violation", (f"generator panics ({e['message']}) on a definition that must be rejected with an error stating the "
+                             f"bound: {spec} (defect D3c is back?)")
+    # ---- implementation vs model
     if not ac.impl_matches_model(impl, model):
         return "violation", f"implementation {impl!r} vs model {model!r}"
     m = ERR_RX.match(impl)
@@ -206,37 +232,10 @@ def judge(e, open_ids):
             return "agree_accept", ""
         if impl.startswith("error:address_too_"):
             return "over_reject", ""
-        if impl == "panic":
-            # everything fits, yet the generator's own i64/u64 arithmetic overflows
-            if "D3c" in open_ids and model == "panic:overflow":
-                return "known:D3c", f"generator panics ({e['message']}) on a definition whose addresses all fit"
-            return "violation", "generator panics on a definition whose addresses all fit"
         return "reject_other", ""
-    if spec.startswith("fail:"):
-        return "violation", f"spec evaluation failed: {spec}"
-    verdicts = spec.split(";")
     if impl.startswith("error:"):
         return "agree_reject", ""
-    if impl == "panic":
-        # the generator itself overflowed i64 on a definition that must be rejected with an error
-        if "D3c" in open_ids and model == "panic:overflow":
-            return "known:D3c", f"generator panics ({e['message']}) instead of rejecting: {spec}"
-        return "violation", f"generator panics on a definition that must be rejected: {spec}"
-    if impl != "ok":
-        return "violation", f"implementation {impl!r}, spec {spec!r}"
-    # accepted although something does not fit / a type is missing
-    ids = set()
-    for v in verdicts:
-        if v.startswith("missing:"):
-            return "violation", f"accepted although an address type is missing: {v}"
-        tags = v.split("|")[3]
-        if tags == "":
-            return "violation", f"accepted although an address outside every known class does not fit: {v}"
-        for t in tags.split("+"):
-            ids.add(t)
-    if ids and ids <= set(open_ids):
-        return "known:" + "+".join(sorted(ids)), f"accepted although {spec}"
-    return "violation", f"accepted although {spec} (classes {sorted(ids)} not all recorded open)"
+    return "violation", f"implementation {impl!r}, spec {spec!r}"
 
 
 def category(e, open_ids):
@@ -253,6 +252,32 @@ def category(e, open_ids):
     if detail.startswith("generator panics"):
         return "panic"
     return "model_mismatch"
+
+
+def repaired_class_shape(d):
+    """the definition has a repeated block or a register/command ref without address or repeat override"""
+    for o, _, _ in ac.all_objects(d["objects"]):
+        if o["kind"] == "block" and o.get("repeat"):
+            return True
+        if o["kind"] == "ref" and o["override"]["kind"] != "block" and (o["override"].get("address") is None or o["override"].get("repeat") is None):
+            return True
+    return False
+
+
+def d3b_shape(d, it):
+    """signed internal type and some repeat whose (count-1)*|stride| exceeds its maximum (the class of D3b; only used to
+    pick definitions for L2, the classification is the model's)"""
+    if not it.startswith("i"):
+        return False
+    it_hi = (1 << (int(it[1:]) - 1)) - 1
+    for o, _, _ in ac.all_objects(d["objects"]):
+        tgt = o["override"] if o["kind"] == "ref" else o
+        rep = tgt.get("repeat")
+        if rep is None and o["kind"] == "ref":
+            rep = (ac.find_obj(d["objects"], o["target"]) or {}).get("repeat")
+        if rep is not None and (rep["count"] - 1) * abs(rep["stride"]) > it_hi:
+            return True
+    return False
 
 
 def fn_name():
@@ -409,17 +434,17 @@ def l2_phase(ctx, exe, rng, accepted, open_ids, nmax):
                         samples.append({"mode": mode, "definition": adef.render(d2, "dsl"), "call": path + " @ " + idxs,
                                         "bus_address": obs, "addr_sem": sem})
                     continue
-                # the compiled code panics / puts a wrong address on the bus although the definition was accepted
+                # the compiled code panics / puts a wrong address on the bus although the definition was accepted (and
+                # agrees with the model's gen_addr).  By C13_accepted_no_overflow this is possible only in the class
+                # of D3b (signed internal type, some step's (count-1)*|stride| beyond its maximum): the model marks it.
                 ids = set(t for t in tags.split("+") if t)
                 it = res[cid]["coq_extra"][0].split(" ## ")[2] if res[cid].get("coq_extra") else "?"
-                if not ids and it.startswith("i") and ((not release and obs == "panic:overflow") or release):
-                    ids = {"D3b"}
-                if ids and ids <= set(open_ids):
-                    known["+".join(sorted(ids))].append(f"{mode}: {path} @ [{idxs}] addr_sem {sem}, compiled code: {obs}; " +
-                                                        adef.render(d2, "dsl").replace("\n", " ")[:400])
+                if ids == {"D3b"} and "D3b" in open_ids:
+                    known["D3b"].append(f"{mode}: {path} @ [{idxs}] addr_sem {sem}, compiled code: {obs}; " +
+                                        adef.render(d2, "dsl").replace("\n", " ")[:400])
                     stats[f"{mode}_known"] += 1
                 else:
-                    viols.append({"what": f"L2 ({mode}): accepted definition outside the known classes computes a wrong address / overflows",
+                    viols.append({"what": f"L2 ({mode}): accepted definition outside the class of D3b computes a wrong address / overflows",
                                   "definition": adef.render(d2, "dsl"), "adef": d2, "call": ln, "observed": obs, "addr_sem": sem,
                                   "internal_type": it})
     l2.cleanup(ctx, "c13l2")
@@ -437,7 +462,7 @@ def run(ctx):
     rng = random.Random(ctx.seed)
     n = 1500 if ctx.tier == "quick" else 20000
     stats = collections.Counter()
-    items, defs = [], {}
+    items, defs, expect = [], {}, {}
     cdir = os.path.join(vlib.VERIF, "corpus", "C13")
     if os.path.isdir(cdir):
         for f in sorted(os.listdir(cdir)):
@@ -445,6 +470,8 @@ def run(ctx):
                 d = json.load(open(os.path.join(cdir, f)))
                 cid = "k" + re.sub(r"\W", "", f[:-5])
                 defs[cid] = (d["adef"], d.get("syntax", "dsl"))
+                if d.get("expect"):
+                    expect[cid] = d["expect"]
                 items.append((cid, d["adef"], d.get("syntax", "dsl"), adef.render(d["adef"], d.get("syntax", "dsl"))))
     ncorpus = len(items)
     for i in range(n):
@@ -466,8 +493,11 @@ def run(ctx):
     for (cid, d, sx, tx) in items:
         e = res[cid]
         v, detail = judge(e, open_ids)
-        verdicts[v] += 1
         impl = e["impl"]
+        if v != "violation" and cid in expect and impl != expect[cid]:
+            # corpus: the witnesses of the repaired defects (and of D3b) with the outcome recorded for them
+            v, detail = "violation", f"corpus witness {cid}: generator says {impl!r}, recorded outcome {expect[cid]!r}"
+        verdicts[v] += 1
         outcome_hist[impl.split(":")[1] if impl.startswith("error:") else impl] += 1
         distinct.add(json.dumps(d, sort_keys=True))
         if v == "violation":
@@ -480,8 +510,11 @@ def run(ctx):
     # ---- L2
     l2stats, l2viols, l2known, l2samples = collections.Counter(), [], {}, []
     if not bad:
-        # known-class definitions first (they show the consequence), then a spread of the others
-        pri = [a for a in accepted if judge(res[a[0]], open_ids)[0].startswith("known:")][:10 if ctx.tier == "quick" else 60]
+        # definitions with the constructs of the repaired classes first (repeated blocks, refs falling back to their
+        # target's address / repeat), then a spread of the others
+        pri = [a for a in accepted if a[0].startswith("k")]
+        pri += [a for a in accepted if a not in pri and d3b_shape(a[1], a[2].split(" ## ")[2])][:10 if ctx.tier == "quick" else 60]
+        pri += [a for a in accepted if a not in pri and repaired_class_shape(a[1])][:20 if ctx.tier == "quick" else 120]
         rest = [a for a in accepted if a not in pri]
         rng.shuffle(rest)
         l2stats, l2viols, l2known, l2samples = l2_phase(ctx, exe, rng, pri + rest, open_ids, 60 if ctx.tier == "quick" else 400)
@@ -503,15 +536,18 @@ def run(ctx):
         cid, detail = bad[0]
         d, sx = defs[cid]
         cat = category(res[cid], open_ids)
-        small = ac.shrink(ctx, exe, d, lambda e: category(e, open_ids) == cat
-                          and not e["impl"].startswith("error:ref_") and not e["impl"].startswith("error:other")
-                          and not e["impl"].startswith("error:dup"), fn)
+        if cat is None:      # a corpus witness whose recorded outcome changed: already minimal
+            small = d
+        else:
+            small = ac.shrink(ctx, exe, d, lambda e: category(e, open_ids) == cat
+                              and not e["impl"].startswith("error:ref_") and not e["impl"].startswith("error:other")
+                              and not e["impl"].startswith("error:dup"), fn)
         sres = ac.run_batch(ctx, exe, [("r", small, "dsl", adef.render(small, "dsl"))], fn, tag="c13r")["r"]
         vlib.violation(ctx, {"what": "address-range analysis of the real generator disagrees with the proven model / the exact reach-fits spec",
                              "failing_input": {"syntax": "dsl", "text": adef.render(small, "dsl"), "adef": small},
                              "original_input": {"syntax": sx, "adef": d},
                              "implementation": sres["impl"], "message": sres["message"], "model_spec_internal": sres["coq"],
-                             "detail": judge(sres, open_ids)[1], "disagreements": len(bad)})
+                             "detail": judge(sres, open_ids)[1] or detail, "disagreements": len(bad)})
     elif l2viols:
         v = dict(l2viols[0])
         v["failing_input"] = {"syntax": "dsl", "text": v.get("definition"), "adef": v.get("adef"), "l2": True}
